@@ -25,7 +25,7 @@ import warnings
 import numpy as np
 from hypothesis import strategies as st
 
-from vf.harness import Clause, Info, require, Skip
+from vf.harness import Violation, Clause, Info, require, Skip
 from vf import ref_c10 as R
 
 import mdtraj as md
@@ -692,6 +692,50 @@ def part_case(draw, max_traj=6, max_len=7):
             "ddtype": draw(st.sampled_from(["float64", "float32"]))}
 
 
+@st.composite
+def bad_lengths_case(draw):
+    """trajectory lengths that do NOT add up to the number of frames of the flat result (e.g. unstrided lengths next to
+    subsampled data): there is no way to split the result by them"""
+    c = draw(part_case())
+    n = sum(c["lengths"])
+    kind = draw(st.sampled_from(["equal_fewer", "equal_more", "equal_divisor", "ragged_fewer", "ragged_more"]))
+    k = draw(st.integers(1, 4))
+    if kind == "equal_divisor":
+        divs = [d_ for d_ in range(1, n + 1) if n % d_ == 0]
+        L = draw(st.sampled_from(divs))
+        reps = n // L + draw(st.sampled_from([-1, 1, 2]))
+        bad = [L] * max(reps, 1)
+    elif kind.startswith("equal"):
+        L = draw(st.integers(1, 7))
+        bad = [L] * k
+    else:
+        bad = [draw(st.integers(1, 7)) for _ in range(k + 1)]
+        if len(set(bad)) == 1:
+            bad[0] += 1
+    if sum(bad) == n:
+        bad[-1] += 1
+    c["bad_lengths"] = bad
+    c["bad_kind"] = kind
+    # center indices must address frames of both layouts
+    c["center_idx"] = [i for i in c["center_idx"] if i < min(n, sum(bad))] or [0]
+    return c
+
+
+def run_part_bad_lengths(case):
+    L, I, A, Dd, centers = part_build(case)
+    bad = case["bad_lengths"]
+    badL = list(bad) if case["lengths_as"] in ("list", "tuple") else np.array(bad, dtype=case["lengths_as"])
+    res0 = cutil.ClusterResult(center_indices=I, distances=Dd, assignments=A, centers=centers)
+    try:
+        res = res0.partition(badL)
+    except Exception as e:
+        return Info(True, ["bad_lengths=" + case["bad_kind"], "refused=%s" % type(e).__name__])
+    got = [len(r) for r in res.assignments]
+    raise Violation("partition() accepted trajectory lengths that do not add up to the number of frames and returned a result | "
+                    "n_frames=%d, lengths=%s, returned_row_lengths=%s" % (len(A), list(bad), got))
+
+
+
 def part_build(case):
     lengths = case["lengths"]
     la = case["lengths_as"]
@@ -1053,6 +1097,8 @@ CLAUSES = [
     Clause("part_index", part_case(), run_part_index, quick=500, thorough=10000, exhaustive=exhaustive_index),
     Clause("part_container", part_case(), run_part_container, quick=400, thorough=8000),
     Clause("part_concat", part_case(), run_part_concat, quick=400, thorough=8000),
+    Clause("part_bad_lengths", bad_lengths_case(), run_part_bad_lengths, quick=300, thorough=5000,
+           doc="lengths that do not add up to the number of frames are refused (equal and ragged routes alike)"),
     Clause("part_large", part_case(max_traj=25, max_len=40), run_part_index, quick=0, thorough=1500),
     Clause("frames_files", frames_files_case(), run_frames_files, quick=60, thorough=1600),
     Clause("find_centers", find_case(), run_find, quick=500, thorough=10000),
